@@ -9,15 +9,47 @@ parser thread, any number of pool workers and the consumer; runs of any length; 
 (`c.chunkEnd`), any block structure (`c.blobEnd`), pool parsing on/off, buffers_type any/single,
 any buffer capacity (internal growth is a free choice before every object / the level split of
 a decoded blob is a parameter), any entity mask `c.sel` and metadata projection `c.strip`, any
-client (any sequence of header()/read()/close() calls, then the destructor).
+client (any sequence of header()/read()/close() calls, then the destructor), and ANY FAULT:
+decompressor read/close, parser exception, and a PBF blob whose decoding throws — in a pool
+worker or inline (`c.blobFault`; no theorem of this file assumes `blobFault = none` any more).
 
 Spec: `deliver c = (c.file.filter c.sel).map c.strip` where `c.file` is the result of the
-single-threaded decode.  The tie to the C++ code is the trace validation and the monitors of
+single-threaded decode.  With a faulty blob `b` (Lemmas/PipelineFaultDefs.lean):
+`deliverBefore c` = `deliver c` truncated where blob `b` starts; `deliverSkipping c` = `deliver c`
+minus the objects of blob `b` if that blob is decoded in a pool worker (`lostBlob c = some b`: the
+worker's future gets the exception, the parser thread goes on with the following blobs, so the
+objects of blob `b` are in nobody's hands any more; decoded inline the parser thread itself stops
+at the blob and nothing drops out, `lostBlob c = none`).
+
+What is proved:
+  * `queue_of_futures_order` (osmdata queue in use) and `order_in_every_state` (also after
+    shutdown(): "in transit" is replaced by `unpopped` = handed to push() and not popped: queued, in
+    flight or discarded) — delivered ++ in transit ++ parser buffer ++ projected rest of the file =
+    `specAt c s.blob` = `deliver c` until the lost blob has been submitted, `deliverSkipping c`
+    afterwards; `queue_of_futures_order_intact` is the special case `lostBlob c = none` (no blob
+    fault, or inline decoding, or not PBF) with right-hand side `deliver c`;
+    `queue_of_futures_order_skipping`: the same conservation law with ONE state-independent
+    right-hand side `deliverSkipping c` (the lost blob is removed from "rest of the file" while it is
+    still ahead);
+  * `delivered_is_prefix_any_fault`: in every reachable state delivered ++ back buffers is a prefix
+    of `deliver c`; `delivered_before_fault`: … of `deliverBefore c`; `nothing_popped_after_exception`;
+    `faulty_blob_delivers_prefix_then_error`: with a faulty blob the caller gets a prefix of the
+    objects before that blob, never a clean end of data, and after the exception was rethrown every
+    read() fails;
+  * `exactly_once_in_order`, `complete_reads_agree…`, `schedule_independent`, `pool_size_irrelevant`
+    for every configuration.
+Hypotheses that remain: `c.WF` (the chunk/blob boundaries are those of the file; a configuration
+that uses the pool has a worker) on the complete-read theorems; `c.blobEnd.Pairwise (· ≤ ·)` (blob
+boundaries ascend — part of `c.WF`) where a statement mentions the START of the faulty blob;
+`s.outq.inUse = true` on `queue_of_futures_order` only (after shutdown() the drained futures are in
+nobody's hands: the equation with `inTransit` is false there, `order_in_every_state` says what
+holds instead).  The tie to the C++ code is the trace validation and the monitors of
 tools/props/c05.py.
 -/
 import Osmium.Lemmas.PipelineOrder
 import Osmium.Lemmas.PipelineComplete
 import Osmium.Lemmas.PipelineDirect4
+import Osmium.Lemmas.PipelineFaultE
 
 namespace Osmium.C05
 
@@ -45,23 +77,60 @@ theorem reader_queues_are_c19_queues (c : Cfg α) (s : State α) (h : (P c).Reac
 
 /-! ## the central invariant -/
 
-/-- `queue_of_futures_order`.  While the osmdata queue is in use:
+/-- `queue_of_futures_order`, for EVERY configuration.  While the osmdata queue is in use:
     delivered ++ back buffers (oldest nested first) ++ future held by read() ++ queue (front first;
-    a pending future counts with the objects of its block) ++ future being pushed ++ value about
+    a pending future counts with what it is going to hold) ++ future being pushed ++ value about
     to be pushed ++ parser buffer (nested oldest first, then current) ++ projected rest of the
-    file = deliver file.  (`hb`: see Lemmas/PipelineOrder.lean — a blob whose decoding throws in a
-    pool worker takes its objects out of the equation.) -/
-theorem queue_of_futures_order (c : Cfg α) (hb : c.blobFault = none) (s : State α) (h : (P c).Reachable s)
+    file = `specAt c s.blob`: the projected file `deliver c`, and from the moment the parser thread
+    has submitted a blob whose decoding throws in a pool worker the projected file minus the objects
+    of that blob (`deliverSkipping c`). -/
+theorem queue_of_futures_order (c : Cfg α) (s : State α) (h : (P c).Reachable s) (hu : s.outq.inUse = true) :
+    s.delivered ++ inTransit s ++ upstream c s = specAt c s.blob :=
+  Fault.order_any c s h hu
+
+/-- … the special case that no blob is lost in a pool worker (no blob fault configured, or blobs
+    decoded inline, or not a PBF file): the right-hand side is `deliver c` in every state. -/
+theorem queue_of_futures_order_intact (c : Cfg α) (hl : lostBlob c = none) (s : State α) (h : (P c).Reachable s)
     (hu : s.outq.inUse = true) :
-    s.delivered ++ inTransit s ++ upstream c s = deliver c :=
-  Pipeline.queue_of_futures_order c hb s h hu
+    s.delivered ++ inTransit s ++ upstream c s = deliver c := by
+  rw [← Fault.specAt_of_none hl s.blob]; exact Fault.order_any c s h hu
+
+omit [DecidableEq α] in
+/-- the special case covers: no blob fault configured; inline decoding; a non-PBF input -/
+example (c : Cfg α) (h : c.blobFault = none ∨ c.usePool = false ∨ c.pbf = false) : lostBlob c = none :=
+  Fault.lostBlob_none_of c h
+
+/-- `queue_of_futures_order` against ONE state-independent right-hand side: with the objects of the
+    lost blob taken out of "rest of the file" while that blob is still ahead (`upstreamSkipping`),
+    delivered ++ in transit ++ parser buffer ++ rest = `deliverSkipping c` in EVERY reachable state
+    (first clause: with `unpopped`, also after shutdown(); second clause: queue in use). -/
+theorem queue_of_futures_order_skipping (c : Cfg α) (hm : c.blobEnd.Pairwise (· ≤ ·)) (s : State α)
+    (h : (P c).Reachable s) :
+    s.delivered ++ (s.back.flatten ++ holding s ++ vals s (unpopped s) ++ pend s) ++ upstreamSkipping c s
+      = deliverSkipping c ∧
+    (s.outq.inUse = true → s.delivered ++ inTransit s ++ upstreamSkipping c s = deliverSkipping c) :=
+  Fault.order_skipping c hm s h
+
+/-- The order equation in EVERY reachable state, also after shutdown() of the osmdata queue (close(),
+    destructor, error, end of data): with `unpopped s` = the futures the parser thread handed to
+    push() that the consumer has not popped — still queued, in flight inside push(), or DISCARDED
+    (drained by shutdown() / refused by a push() that found the queue shut down) — in place of
+    "queue ++ in flight".  While the queue is in use `unpopped` IS queue ++ in flight; after
+    shutdown() the equation with `inTransit` fails (drained futures are in nobody's hands), and this
+    is what holds instead: everything that was dropped sits between what was delivered and what
+    is upstream, so it was never delivered and nothing after it was. -/
+theorem order_in_every_state (c : Cfg α) (s : State α) (h : (P c).Reachable s) :
+    s.delivered ++ (s.back.flatten ++ holding s ++ vals s (unpopped s) ++ pend s) ++ upstream c s = specAt c s.blob ∧
+    (s.outq.inUse = true → unpopped s = s.outq.items ++ QueueSM.inflight s.outq tP) :=
+  Fault.order_all_states c s h
 
 /-- Parser side of the invariant, in EVERY reachable state (also after faults, close(),
-    shutdown): what the parser thread ever handed to push(), what it is about to push, its buffer
-    and the rest of the file are the projected file — nothing is parsed twice or skipped. -/
-theorem parser_side (c : Cfg α) (hb : c.blobFault = none) (s : State α) (h : (P c).Reachable s) :
-    vals s s.outq.called ++ pend s ++ upstream c s = deliver c :=
-  Pipeline.parser_side c hb s h
+    shutdown) and for every configuration: what the parser thread ever handed to push(), what it is
+    about to push, its buffer and the rest of the file are the projected file (minus the lost blob
+    once it has been submitted) — nothing is parsed twice or skipped. -/
+theorem parser_side (c : Cfg α) (s : State α) (h : (P c).Reachable s) :
+    vals s s.outq.called ++ pend s ++ upstream c s = specAt c s.blob :=
+  Fault.parser_side_any c s h
 
 /-- Consumer side, in EVERY reachable state: what the caller got, the back buffers and the
     future read() holds are exactly what the futures popped from the queue carry. -/
@@ -69,71 +138,116 @@ theorem consumer_side (c : Cfg α) (s : State α) (h : (P c).Reachable s) :
     s.delivered ++ s.back.flatten ++ holding s = vals s (s.outq.popped.map (fun p => p.2)) :=
   Pipeline.consumer_side c s h
 
+/-- read() never pops another future after one that holds an exception (it closes the Reader and
+    rethrows): in the list of popped futures an exception future is the last one. -/
+theorem nothing_popped_after_exception (c : Cfg α) (s : State α) (h : (P c).Reachable s)
+    (l r : List (QueueSM.Item Nat)) (x : QueueSM.Item Nat)
+    (hp : s.outq.popped.map (fun p => p.2) = l ++ x :: r) (hx : isExc (s.want x.2)) : r = [] :=
+  Fault.exc_last c s h l x r hp hx
+
 /-! ## corollaries -/
 
 /-- `exactly_once_in_order`: a complete read (read() returned the end-of-data marker it popped
     from the queue) delivered exactly `deliver c`, in order, and nothing is left over — for every
-    well-formed configuration, every interleaving, every pool size / queue bound / buffer
-    capacity / chunking.  (Proof: Lemmas/PipelineComplete.lean — the end marker is the last future
-    each producer pushes, pushed by the parser only after all chunks were received and the buffer
-    was flushed; FIFO of both queues; the equations `parser_side` / `consumer_side`.) -/
-theorem exactly_once_in_order (c : Cfg α) (wf : c.WF) (hb : c.blobFault = none) (s : State α)
+    well-formed configuration (any fault configured: a complete read means none has happened), every
+    interleaving, every pool size / queue bound / buffer capacity / chunking.  (Proof:
+    Lemmas/PipelineComplete.lean, PipelineFaultE.lean — the end marker is the last future each
+    producer pushes, pushed by the parser only after all chunks were received and the buffer was
+    flushed; no exception future precedes it, so no blob was lost; FIFO of both queues; the
+    equations `parser_side` / `consumer_side`.) -/
+theorem exactly_once_in_order (c : Cfg α) (wf : c.WF) (s : State α)
     (h : (P c).Reachable s) (hd : completed s) : s.delivered = deliver c ∧ s.back = [] :=
-  Pipeline.complete_read c wf hb s h hd
+  Fault.complete_read_any c wf s h hd
 
 /-- any two complete reads of one configuration delivered the same sequence -/
-theorem complete_reads_agree (c : Cfg α) (wf : c.WF) (hb : c.blobFault = none) (s₁ s₂ : State α)
+theorem complete_reads_agree (c : Cfg α) (wf : c.WF) (s₁ s₂ : State α)
     (h₁ : (P c).Reachable s₁) (h₂ : (P c).Reachable s₂) (d₁ : completed s₁) (d₂ : completed s₂) :
     s₁.delivered = s₂.delivered := by
-  rw [(exactly_once_in_order c wf hb s₁ h₁ d₁).1, (exactly_once_in_order c wf hb s₂ h₂ d₂).1]
+  rw [(exactly_once_in_order c wf s₁ h₁ d₁).1, (exactly_once_in_order c wf s₂ h₂ d₂).1]
 
 /-- … also across configurations that differ in pool size, pool parsing on/off, queue bounds,
-    chunking, block structure, buffers_type, spurious wake-ups (same file, mask, projection) -/
+    chunking, block structure, buffers_type, spurious wake-ups, configured faults (same file, mask,
+    projection) -/
 theorem complete_reads_agree_across_configs (c₁ c₂ : Cfg α) (wf₁ : c₁.WF) (wf₂ : c₂.WF)
-    (hb₁ : c₁.blobFault = none) (hb₂ : c₂.blobFault = none)
     (hf : c₁.file = c₂.file) (hs : c₁.sel = c₂.sel) (ht : c₁.strip = c₂.strip) (s₁ s₂ : State α)
     (h₁ : (P c₁).Reachable s₁) (h₂ : (P c₂).Reachable s₂) (d₁ : completed s₁) (d₂ : completed s₂) :
     s₁.delivered = s₂.delivered := by
-  rw [(exactly_once_in_order c₁ wf₁ hb₁ s₁ h₁ d₁).1, (exactly_once_in_order c₂ wf₂ hb₂ s₂ h₂ d₂).1]
+  rw [(exactly_once_in_order c₁ wf₁ s₁ h₁ d₁).1, (exactly_once_in_order c₂ wf₂ s₂ h₂ d₂).1]
   simp [deliver, proj, hf, hs, ht]
 
-/-- `schedule_independent`: whatever the interleaving, what a run has delivered so far (plus its
-    back buffers) is a prefix of ONE sequence that depends on the file, the mask and the metadata
-    projection only; hence of any two runs one delivery is a prefix of the other, and two runs
-    that delivered equally many objects delivered the same objects. -/
-theorem schedule_independent (c : Cfg α) (hb : c.blobFault = none) (s₁ s₂ : State α)
+/-- `delivered_is_prefix_any_fault`.  In EVERY reachable state of EVERY configuration — also after
+    close(), after an error, when the consumer stopped early, when a blob decode threw in a pool
+    worker or inline — what was delivered plus the back buffers is a PREFIX of the specification:
+    nothing is duplicated, reordered or invented. -/
+theorem delivered_is_prefix_any_fault (c : Cfg α) (s : State α) (h : (P c).Reachable s) :
+    (s.delivered ++ s.back.flatten) <+: deliver c :=
+  Fault.delivered_prefix_any c s h
+
+/-- `delivered_before_fault` (sharper).  With a blob whose decoding throws (`faultyBlob c = some b`:
+    in a pool worker or inline) what was delivered plus the back buffers is a prefix of
+    `deliverBefore c` — the projected objects of the blobs BEFORE the faulty one, i.e. `deliver c`
+    truncated where that blob starts: although the parser thread has queued the objects of the LATER
+    blobs behind the exception, none of them reaches the caller.  (Without a faulty blob
+    `deliverBefore c = deliver c`.)  `hm`: the blob boundaries ascend. -/
+theorem delivered_before_fault (c : Cfg α) (hm : c.blobEnd.Pairwise (· ≤ ·)) (s : State α) (h : (P c).Reachable s) :
+    (s.delivered ++ s.back.flatten) <+: deliverBefore c ∧ deliverBefore c <+: deliver c :=
+  ⟨Fault.delivered_before c hm s h, Fault.deliverBefore_prefix c⟩
+
+/-- `schedule_independent`, for every configuration: whatever the interleaving, what a run has
+    delivered so far is a prefix of ONE sequence that depends on the file, the mask and the metadata
+    projection only (by `delivered_before_fault`: and on the position of the faulty blob); hence of
+    any two runs one delivery is a prefix of the other, and two runs that delivered equally many
+    objects delivered the same objects. -/
+theorem schedule_independent (c : Cfg α) (s₁ s₂ : State α)
     (h₁ : (P c).Reachable s₁) (h₂ : (P c).Reachable s₂) :
     s₁.delivered <+: deliver c ∧ s₂.delivered <+: deliver c ∧
     (s₁.delivered.length = s₂.delivered.length → s₁.delivered = s₂.delivered) := by
-  have p1 : s₁.delivered <+: deliver c := (List.prefix_append _ _).trans (Pipeline.delivered_prefix c hb s₁ h₁)
-  have p2 : s₂.delivered <+: deliver c := (List.prefix_append _ _).trans (Pipeline.delivered_prefix c hb s₂ h₂)
+  have p1 : s₁.delivered <+: deliver c := (List.prefix_append _ _).trans (delivered_is_prefix_any_fault c s₁ h₁)
+  have p2 : s₂.delivered <+: deliver c := (List.prefix_append _ _).trans (delivered_is_prefix_any_fault c s₂ h₂)
   refine ⟨p1, p2, fun hl => ?_⟩
   rw [List.prefix_iff_eq_take] at p1 p2
   rw [p1, p2, hl]
 
 /-- `pool_size_irrelevant`: two configurations that agree on the file, the mask and the metadata
     projection — but may differ in pool size, pool parsing on/off, work-queue and queue bounds,
-    chunking, block structure, buffers_type, spurious wake-ups, faults other than a pool-side
-    decode fault — deliver prefixes of the same sequence; equally long deliveries are equal. -/
-theorem pool_size_irrelevant (c₁ c₂ : Cfg α) (hb₁ : c₁.blobFault = none) (hb₂ : c₂.blobFault = none)
+    chunking, block structure, buffers_type, spurious wake-ups, ANY configured fault — deliver
+    prefixes of the same sequence; equally long deliveries are equal. -/
+theorem pool_size_irrelevant (c₁ c₂ : Cfg α)
     (hf : c₁.file = c₂.file) (hs : c₁.sel = c₂.sel) (ht : c₁.strip = c₂.strip)
     (s₁ s₂ : State α) (h₁ : (P c₁).Reachable s₁) (h₂ : (P c₂).Reachable s₂) :
     deliver c₁ = deliver c₂ ∧
     (s₁.delivered.length = s₂.delivered.length → s₁.delivered = s₂.delivered) := by
   have hd : deliver c₁ = deliver c₂ := by simp [deliver, proj, hf, hs, ht]
-  have p1 : s₁.delivered <+: deliver c₁ := (List.prefix_append _ _).trans (Pipeline.delivered_prefix c₁ hb₁ s₁ h₁)
-  have p2 : s₂.delivered <+: deliver c₂ := (List.prefix_append _ _).trans (Pipeline.delivered_prefix c₂ hb₂ s₂ h₂)
+  have p1 : s₁.delivered <+: deliver c₁ := (List.prefix_append _ _).trans (delivered_is_prefix_any_fault c₁ s₁ h₁)
+  have p2 : s₂.delivered <+: deliver c₂ := (List.prefix_append _ _).trans (delivered_is_prefix_any_fault c₂ s₂ h₂)
   refine ⟨hd, fun hl => ?_⟩
   rw [List.prefix_iff_eq_take] at p1 p2
   rw [p1, p2, hl, hd]
 
-/-- In EVERY reachable state — also after close(), after an error, when the consumer stopped
-    early — what was delivered plus the back buffers is a PREFIX of the specification: nothing
-    is duplicated, reordered or invented. -/
-theorem delivered_is_prefix (c : Cfg α) (hb : c.blobFault = none) (s : State α) (h : (P c).Reachable s) :
-    (s.delivered ++ s.back.flatten) <+: deliver c :=
-  Pipeline.delivered_prefix c hb s h
+/-- `faulty_blob_delivers_prefix_then_error`.  A PBF file whose blob `b` cannot be decoded (in a
+    pool worker or inline), any schedule, any client: (1) everything the caller ever gets is a
+    prefix of the projected objects BEFORE blob `b` — in order, each once, nothing of blob `b` or of
+    a later blob; (2) once the decode has thrown, read() never reports a clean end of data (C07
+    `first_error_reported`: the exception future precedes the end marker, read() stops at it, closes
+    the Reader and rethrows); (3) after the exception was rethrown (status error) no back buffers
+    are left and every further read() fails with io_error and delivers nothing.  (That the call
+    which meets the exception RETURNS is C07 `api_call_returns_thread_fair`.) -/
+theorem faulty_blob_delivers_prefix_then_error (c : Cfg α) (wf : c.WF) (b : Nat) (hf : faultyBlob c = some b)
+    (s : State α) (h : (P c).Reachable s) :
+    (s.delivered ++ s.back.flatten) <+: proj c (c.file.take (blobStart c b)) ∧
+    (s.faulted = true → s.sawEod = false) ∧
+    (s.status = .error → s.back = [] ∧
+      ∀ s', (P c).Step s .cRead s' → s'.cpc = .ret .ioError ∧ s'.delivered = s.delivered) := by
+  refine ⟨?_, fun hfl => ?_, fun he => ?_⟩
+  · have := Fault.delivered_before c wf.blob_mono s h
+    simpa only [deliverBefore, hf] using this
+  · cases hd : s.sawEod with
+    | false => rfl
+    | true => rw [Pipeline.eod_means_no_fault c wf s h hd] at hfl; cases hfl
+  · have hb := error_back_nil c s h he
+    exact ⟨hb, fun s' hst => Pipeline.read_fails_when_not_okay c s s' hst (by rw [he]; decide) hb⟩
 
+omit [DecidableEq α] in
 /-- `nested_unwinding_order`: a popped buffer with nested buffers is unwound oldest first
     (`get_last_nested` returns the most deeply nested = oldest buffer): the oldest level is
     returned now, the others become the back buffers in their order, and delivered ++ back
@@ -152,7 +266,7 @@ theorem nested_unwinding_order (s : State α) (levels : List (List α)) (hb : s.
     simp only [wfLevels, Bool.and_eq_true, Bool.not_eq_true', List.isEmpty_eq_false_iff] at hw
     have hl : l.isEmpty = false := by simpa using hw.1
     refine ⟨?_, fun l' rest' h hr => ?_⟩
-    · simp [afterPop, hl, hb]
+    · simp [afterPop, hl]
     · simp only [List.cons.injEq] at h
       obtain ⟨rfl, rfl⟩ := h
       simp [afterPop, hl]
@@ -168,6 +282,17 @@ theorem back_buffers_oldest_first (c : Cfg α) (s s' : State α) (b : List α) (
     subst hst
     simp
   · simp at hst
+
+/-- `nested_unwinding_order` in a reachable state, WITHOUT hypotheses about the buffer: whenever read()
+    unpacks a ready future holding a buffer (any reachable state, any schedule) there are no back
+    buffers and every nested level holds data, so delivered ++ back buffers grows by exactly the
+    levels of the buffer, oldest first. -/
+theorem nested_unwinding_order_reachable (c : Cfg α) (s s' : State α) (levels : List (List α))
+    (h : (P c).Reachable s) (hst : (P c).Step s (.cGet (.buf levels)) s') :
+    s'.delivered ++ s'.back.flatten = s.delivered ++ levels.flatten ∧
+    (∀ l rest, levels = l :: rest → rest ≠ [] → s'.cpc = .ret (.data l) ∧ s'.back = rest) := by
+  obtain ⟨rfl, hb, hw⟩ := Fault.cGet_buf_step c s s' levels h hst
+  exact nested_unwinding_order s levels hb hw
 
 omit [DecidableEq α] in
 /-- `mask_is_subsequence`: the specification for a mask is the masked subsequence of the file
@@ -257,12 +382,93 @@ example : ∃ s, (P tiny).Reachable s ∧
       && decide (s.next = 1)) = true :=
   trace_witness tiny tinyRun _ (by decide)
 
-example : tiny.blobFault = none := rfl
+example : lostBlob tiny = none := rfl
+
+/-- the hypothesis of `nested_unwinding_order_reachable` is satisfiable: in the run above read() unpacks
+    a buffer in a reachable state -/
+example : ∃ s, (P tiny).Reachable s ∧ (step? tiny s (.cGet (.buf [[7]]))).isSome = true :=
+  trace_witness tiny (tinyRun.take 43) _ (by decide)
 
 example : tiny.WF :=
   { nothing_sel := by simp [tiny], chunk_mono := by simp [tiny], chunk_le := by simp [tiny], chunk_last := by simp [tiny],
     blob_mono := by simp [tiny], blob_le := by simp [tiny], blob_last := by simp [tiny], chunk_blob := by simp [tiny],
     workers_ne := by simp [tiny], workers_fresh := by simp [tiny] }
+
+/-! ## non-vacuity: a blob whose decoding throws in a pool worker, evaluated by the kernel -/
+
+/-- a PBF file with three blobs of one object each, one input piece, one pool worker, unbounded
+    queues; decoding the SECOND blob throws (in the worker) -/
+def lossy : Cfg Nat :=
+  { file := [7, 8, 9], sel := fun _ => true, strip := id, chunkEnd := [3], pbf := true, blobEnd := [1, 2, 3],
+    usePool := true, workers := [3], wqMax := 0, inqC := ⟨0, false⟩, outqC := ⟨0, false⟩, single := false,
+    nothing := false, readFault := none, closeFault := false, parseFault := none, blobFault := some 1 }
+
+/-- the parser thread submits all three blobs (futures 1, 3, 5 queued in file order), the worker runs
+    the three jobs (future 3 gets the exception, future 5 the buffer [9]); the client reads [7], the
+    next read() rethrows the exception (close() inside: the queue is shut down, the buffer [9] behind
+    the exception is discarded), a further read() fails with io_error; then the parser thread finds the
+    queue shut down and returns, and the Reader is destroyed -/
+def lossyRun : List (Ev Nat) :=
+  [.rTestDone false, .rRead (.chunk 0), .qi (.pushEnter 1 0), .qi (.pushTest 1 true), .qi (.pushLocked 1 1 none), .rSet,
+   .rTestDone false, .rRead .eod, .rCloseDec true, .qi (.pushEnter 1 2), .qi (.pushTest 1 true), .qi (.pushLocked 1 2 none), .rSet,
+   .pInUse true, .qi (.popNow 2 2 (some (1, 0))), .pGet (.chunk 0), .pHeader,
+   .pBlob [[7]], .qo (.pushEnter 2 1), .qo (.pushTest 2 true), .qo (.pushLocked 2 1 none),
+   .pBlob [[8]], .qo (.pushEnter 2 3), .qo (.pushTest 2 true), .qo (.pushLocked 2 2 none),
+   .pBlob [[9]], .qo (.pushEnter 2 5), .qo (.pushTest 2 true), .qo (.pushLocked 2 3 none),
+   .wStart 3, .wDone 3, .wStart 3, .wDone 3, .wStart 3, .wDone 3,
+   .cRead, .cInUse true, .qo (.popNow 0 3 (some (2, 1))), .cGet (.buf [[7]]), .cRet (.data [7]),
+   .cRead, .cInUse true, .qo (.popNow 0 2 (some (2, 3))), .cGet (.exc 4),
+   .qo (.sdEnter 0), .qo (.sdFlag 0), .qo (.sdLocked 0), .cJoinR, .cRet (.exc 4),
+   .cRead, .cRet .ioError,
+   .pRunEnd, .qo (.pushEnter 2 7), .qo (.pushTest 2 false), .pSet, .qi (.sdEnter 2), .qi (.sdFlag 2), .qi (.sdLocked 2),
+   .cDtor, .qo (.sdEnter 0), .qo (.sdFlag 0), .qo (.sdLocked 0), .cJoinR, .cJoinP,
+   .qo (.sdEnter 0), .qo (.sdFlag 0), .qo (.sdLocked 0)]
+
+/-- the three specifications of `lossy`: everything / before the faulty blob / without the lost blob -/
+example : deliver lossy = [7, 8, 9] ∧ deliverBefore lossy = [7] ∧ deliverSkipping lossy = [7, 9] ∧
+    faultyBlob lossy = some 1 ∧ lostBlob lossy = some 1 := by decide
+
+/-- hypotheses of `delivered_before_fault`, `queue_of_futures_order_skipping`,
+    `faulty_blob_delivers_prefix_then_error` -/
+example : lossy.blobEnd.Pairwise (· ≤ ·) := by decide
+
+example : lossy.WF :=
+  { nothing_sel := by simp [lossy], chunk_mono := by simp [lossy], chunk_le := by simp [lossy], chunk_last := by simp [lossy],
+    blob_mono := by decide, blob_le := by simp [lossy], blob_last := by simp [lossy], chunk_blob := by simp [lossy],
+    workers_ne := by simp [lossy], workers_fresh := by simp [lossy, tC, tR, tP] }
+
+/-- the state after the third read(): one object was delivered, the second read() returned the
+    exception of the worker (code 4), the third failed with io_error; the status is error; there was
+    no clean end of data; the parser thread had gone past the faulty blob (`blob = 3`: the lost-blob
+    case of `queue_of_futures_order`), the buffer [9] of the third blob was decoded (future 5 is
+    ready) and never delivered -/
+example : ∃ s, (P lossy).Reachable s ∧
+    (s.faulted && !s.sawEod && decide (s.delivered = [7]) && decide (s.results = [.data [7], .exc 4, .ioError])
+      && decide (s.status = .error) && decide (s.blob = 3) && decide (s.fut 5 = some (.buf [[9]]))
+      && decide (s.back = []) && decide (s.outq.items = []) && lostPassed lossy s.blob) = true :=
+  trace_witness lossy (lossyRun.take 51) _ (by decide)
+
+/-- … while the queue was still in use with the lost blob already submitted (hypothesis `hu` of
+    `queue_of_futures_order` in the lost-blob case): after the first read(), the exception future and
+    the buffer [9] queued behind it -/
+example : ∃ s, (P lossy).Reachable s ∧
+    (s.outq.inUse && lostPassed lossy s.blob && decide (s.delivered = [7]) && decide (s.outq.items = [(2, 3), (2, 5)])
+      && decide (inTransit s = [9]) && decide (upstream lossy s = [])) = true :=
+  trace_witness lossy (lossyRun.take 40) _ (by decide)
+
+/-- the hypothesis `hu` of `queue_of_futures_order` is NECESSARY: after the shutdown() inside the failing
+    read() the buffer [9] that was queued behind the exception is in nobody's hands — the equation with
+    `inTransit` is false in that reachable state, the one of `order_in_every_state` (with `unpopped`) holds -/
+example : ∃ s, (P lossy).Reachable s ∧
+    (!s.outq.inUse && !decide (s.delivered ++ inTransit s ++ upstream lossy s = specAt lossy s.blob)
+      && decide (vals s (unpopped s) = [9]) && decide (specAt lossy s.blob = [7, 9])) = true :=
+  trace_witness lossy (lossyRun.take 49) _ (by decide)
+
+/-- … and the whole run: all threads joined, the Reader destructed, still only [7] delivered -/
+example : ∃ s, (P lossy).Reachable s ∧
+    (s.destroyed && s.faulted && !s.sawEod && decide (s.delivered = [7])
+      && decide (s.results = [.data [7], .exc 4, .ioError]) && decide (s.rpc = .done) && decide (s.ppc = .done)) = true :=
+  trace_witness lossy lossyRun _ (by decide)
 
 /-! ## the direct-fd configuration (a PBF FILE read by the parser thread through the file descriptor)
 
@@ -271,22 +477,22 @@ with the whole file available to the parser; by the simulation `Direct.sim` its 
 with reachable states of the queue-fed machine `P (Direct.fed c)` on everything the theorems above talk
 about. -/
 
-/-- `delivered_is_prefix` for the direct-fd configuration -/
-theorem direct_delivered_is_prefix (c : Cfg α) (hd : Direct.IsDirect c) (hb : c.blobFault = none)
+/-- `delivered_is_prefix_any_fault` for the direct-fd configuration (any blob fault) -/
+theorem direct_delivered_is_prefix (c : Cfg α) (hd : Direct.IsDirect c)
     (sd : State α) (h : (Direct.machineD c).Reachable sd) :
     (sd.delivered ++ sd.back.flatten) <+: deliver c := by
   obtain ⟨_, s, hr, hs⟩ := Direct.sim c hd sd h
-  have := delivered_is_prefix (Direct.fed c) hb s hr
+  have := delivered_is_prefix_any_fault (Direct.fed c) s hr
   rw [hs.delivered, hs.back, Direct.deliver_fed] at this
   exact this
 
 /-- `exactly_once_in_order` for the direct-fd configuration: a complete read of a PBF file that the
     parser thread reads through the fd delivered exactly `deliver c`, in order, nothing left over -/
 theorem direct_exactly_once_in_order (c : Cfg α) (hd : Direct.IsDirect c) (wf : (Direct.fed c).WF)
-    (hb : c.blobFault = none) (sd : State α) (h : (Direct.machineD c).Reachable sd) (hc : completed sd) :
+    (sd : State α) (h : (Direct.machineD c).Reachable sd) (hc : completed sd) :
     sd.delivered = deliver c ∧ sd.back = [] := by
   obtain ⟨_, s, hr, hs⟩ := Direct.sim c hd sd h
-  have := exactly_once_in_order (Direct.fed c) wf hb s hr (by unfold completed; rw [hs.sawEod]; exact hc)
+  have := exactly_once_in_order (Direct.fed c) wf s hr (by unfold completed; rw [hs.sawEod]; exact hc)
   rw [hs.delivered, hs.back, Direct.deliver_fed] at this
   exact this
 
